@@ -75,6 +75,28 @@ func VerifRun_C03e() {
 	c03compare(append([]byte(c03ePrefixes[pi]), tail...))
 }
 
+// f: local attributes - every combination of <const>, <close>, no attribute and an unknown attribute over a
+// three-name local statement (at most one <close> per statement, in any position)
+func VerifRun_C03f() {
+	attrs := []string{"", " <const>", " <close>", " <cons>", "<const>", "<close >"}
+	src := "local"
+	for i := 0; i < 3; i++ {
+		if i > 0 {
+			src += ","
+		}
+		src += " v" + string([]byte{'a' + byte(i)}) + attrs[verifConcretize(verifRange("attr", 0, len(attrs)-1))]
+	}
+	switch verifConcretize(verifRange("tail", 0, 2)) {
+	case 0:
+		src += " = 1, 2, f()\n"
+	case 1:
+		src += "\n"
+	case 2:
+		src += " = io.open(p)\nlocal z <close> = nil\n"
+	}
+	c03compare([]byte(src))
+}
+
 var _ = lexer.TkEOF
 
 // a: token level — K symbolic token kinds served to the real parser (lexer overridden), compared with
